@@ -63,6 +63,19 @@ theorem vjpWrap_matrix (A : Mat K m n) (v : CVec K m) :
 
 end vjp
 
+/-! ### the model's wrappers are the rows of `Tables.conjSites` -/
+section sites
+variable {α : Type} [Neg α] {n m : Nat}
+
+theorem scicoGrad_site (jg : CVec α n) : scicoGrad jg = conjTimes 1 jg := rfl
+theorem vjpWrap_true_site (G : CVec α m → CVec α n) (v : CVec α m) : vjpWrap true G v = applySite 1 1 G v := rfl
+theorem vjpWrap_false_site (G : CVec α m → CVec α n) (v : CVec α m) : vjpWrap false G v = applySite 0 0 G v := by
+  simp [vjpWrap, applySite, conjTimes]
+theorem cvjpWrap_site (G : CVec α m → CVec α n) (v : CVec α m) : cvjpWrap G v = applySite 1 1 G v := rfl
+theorem conjFun_site (f : CVec α n → CVec α m) (x : CVec α n) : conjFun f x = applySite 1 1 f x := rfl
+
+end sites
+
 /-! ### the Jacobian linear operator -/
 section jac
 variable {α : Type} {a b : Nat}
